@@ -1640,6 +1640,26 @@ fn bit_string_value_from_named_bits(
         .collect()
 }
 
+/// Verification hooks (feature `verif-hooks`): the value conversions of the linker.
+#[cfg(feature = "verif-hooks")]
+pub(crate) fn verif_octets_to_bits(bytes: &[u8]) -> Vec<bool> {
+    octet_string_to_bit_string(bytes)
+}
+
+#[cfg(feature = "verif-hooks")]
+pub(crate) fn verif_bits_to_octets(bits: &[bool]) -> Option<Vec<u8>> {
+    bit_string_to_octet_string(bits).ok()
+}
+
+#[cfg(feature = "verif-hooks")]
+pub(crate) fn verif_named_bits(
+    highest: i128,
+    named_bits: &[String],
+    distinguished: &[DistinguishedValue],
+) -> Vec<bool> {
+    bit_string_value_from_named_bits(highest, named_bits, distinguished)
+}
+
 #[cfg(test)]
 mod tests {
     use std::collections::BTreeMap;
